@@ -574,11 +574,19 @@ def union_all(chk, rid):
   for n_, c_ in pv_.all_calls():
     if call_tail(c_) == 'append' and isinstance(c_.func, ast.Attribute) and \
         dotted(c_.func.value) in lists_:
-      for e_, val_ in pv_.guards(n_):
-        t_ = norm(pv_.expand(e_, 2), 200)
-        if 'nil' in t_ or 'distinct_denoted' in t_ or 'len(' in t_:
+      # conditions INSIDE the loop over the rules decide per branch; what
+      # stands around the loop (no rules at all, one rule) decides the form
+      loops_ = [l_ for l_ in walk_local(fi.node) if isinstance(l_, (ast.For, ast.While)) and
+                any(y is c_ for y in ast.walk(l_))]
+      inside_ = {id(y) for l_ in loops_ for y in ast.walk(l_)}
+      for h_, pol_ in pv_.cfg.header_of(n_):
+        st_ = pv_.cfg.stmt[h_]
+        if id(st_) not in inside_ or not isinstance(st_, ast.If):
           continue
-        extra_ = e_
+        t_ = norm(pv_.expand(st_.test, 2), 200)
+        if 'nil' in t_ or 'distinct_denoted' in t_:
+          continue
+        extra_ = st_.test
   chk.ob(rid, extra_ is None, None,
          'every non-nil rule of a predicate becomes a branch of the UNION ALL',
          'a branch is added only under `%s`: rules (facts, disjuncts) that compile to the '
